@@ -130,7 +130,9 @@ func prios(name string, n int) []int {
 	ps := make([]int, n)
 	for i := range ps {
 		ps[i] = vp.Int(name + string(rune('0'+i)))
-		vp.Assume(vp.And(ps[i] >= 1, ps[i] <= 1999))
+		if vp.ParamInt("wide", 0) == 0 {
+			vp.Assume(vp.And(ps[i] >= 1, ps[i] <= 1999))
+		} // wide: any 64-bit integer, negative ones and differences beyond MaxInt included
 		vp.Assume(ps[i] != 1000)
 		for j := 0; j < i; j++ {
 			vp.Assume(ps[i] != ps[j])
